@@ -94,6 +94,12 @@ MUTANTS = [
     ("upgraded-handler-entered-after-a-read", "varlink/src/lib.rs",
      r"(loop \{)\s*(if let Some\(iface\) = upgraded_iface \{\s*let mut call = Call::new_upgraded\(writer\);\s*let unread = self\.call_upgraded\(&iface, &mut call, &mut bufreader\)\?;\s*return Ok\(\(unread, Some\(iface\)\)\);\s*\})\s*(let mut buf = Vec::new\(\);\s*let len = bufreader\s*\.read_until\(b'\\0', &mut buf\)\s*\.map_err\(map_context!\(\)\)\?;)",
      r"\1\n            \3\n            \2", {"C02"}),
+    ("idl-cross-kind-duplicate-missed", "varlink_parser/src/lib.rs",
+     r"if i\.error_keys\.contains\(&m\.name\) \|\| i\.typedef_keys\.contains\(&m\.name\) \{", "if i.error_keys.contains(&m.name) {", {"C11"}),
+    ("idl-typedef-key-not-recorded", "varlink_parser/src/lib.rs", r"i\.typedef_keys\.push\(t\.name\);", "", {"C11"}),
+    ("idl-same-kind-duplicate-error-ignored", "varlink_parser/src/lib.rs",
+     r"if let Some\(d\) = i\.errors\.insert\(e\.name, e\) \{", "if let Some(d) = i.errors.insert(e.name, e).filter(|_| false) {", None),
+    ("idl-duplicates-accepted", "varlink_parser/src/lib.rs", r"if !interface\.error\.is_empty\(\) \{", "if interface.error.is_empty() {", {"C11"}),
     ("listen-drops-upgrade-tail", "varlink/src/server.rs",
      r"unread = if i\.is_some\(\) \{ rest \} else \{ Vec::new\(\) \};", "let _ = rest;", {"C02", "C01"}),
 ]
